@@ -614,6 +614,57 @@ pub fn sanamb(shard: usize, npieces: usize, with_pinner: bool, f: Sink) {
 }
 
 // ---------------------------------------------------------------------------------------------
+// BATTERY: two enemy sliders behind each other on a line through the own king, plus one own man
+
+/// shard = own king square * 2 + side
+pub const BATTERY_SHARDS: usize = 128;
+
+/// On each ray from the own king: an enemy slider X at distance i and a second enemy slider Y
+/// behind it at distance j (i < j <= max_dist), X and Y from {line slider of that direction, Q};
+/// one own man T in {N, B, R, Q} on any other square (it may capture X, interpose, or be
+/// irrelevant); enemy king on the first admissible far square. `wide`: X, Y range over {B, R, Q}
+/// regardless of the direction (also non-attacking combinations).
+pub fn battery(shard: usize, max_dist: usize, wide: bool, f: Sink) {
+    let k = shard / 2;
+    let stm = (shard % 2) as u8;
+    let own = stm;
+    let opp = 1 - stm;
+    for d in KG {
+        let rs = ray_squares(k, d);
+        let diag = d.0 != 0 && d.1 != 0;
+        let line = if diag { B } else { R };
+        let sliders: Vec<u8> = if wide { vec![B, R, Q] } else { vec![line, Q] };
+        for i in 0..rs.len().min(max_dist) {
+            for j in (i + 1)..rs.len().min(max_dist + 1) {
+                for &x in &sliders {
+                    for &y in &sliders {
+                        let mut base = Pos::empty();
+                        base.stm = stm;
+                        base.b[k] = mk(own, K);
+                        base.b[rs[i]] = mk(opp, x);
+                        base.b[rs[j]] = mk(opp, y);
+                        let ek = [63usize, 0, 56, 7, 36, 27].iter().cloned().find(|&c| base.b[c] == EMPTY && ((file_of(c) - file_of(k)).abs() > 1 || (rank_of(c) - rank_of(k)).abs() > 1));
+                        let Some(ek) = ek else { continue };
+                        base.b[ek] = mk(opp, K);
+                        emit_if_valid(&base, f);
+                        for t in 0..64 {
+                            if base.b[t] != EMPTY {
+                                continue;
+                            }
+                            for &own_kind in &[N, B, R, Q] {
+                                let mut p = base;
+                                p.b[t] = mk(own, own_kind);
+                                emit_if_valid(&p, f);
+                            }
+                        }
+                    }
+                }
+            }
+        }
+    }
+}
+
+// ---------------------------------------------------------------------------------------------
 // PROMO2: two own pawns on the seventh rank that can both capture on the same promotion square
 
 /// shard = own king square * 2 + side
@@ -936,6 +987,113 @@ pub fn material(shard: usize, clocks: &[u32], f: Sink) {
                     p.b[bk] = K | BLACK;
                     emit_if_valid(&p, f);
                 }
+            }
+        }
+    }
+}
+
+// ---------------------------------------------------------------------------------------------
+// BOXED: an own piece without any move (all its first-step squares hold own men) plus a second
+// own piece of the same kind elsewhere
+
+/// shard = square of the boxed piece
+pub const BOXED_SHARDS: usize = 64;
+
+/// For T in {N, B, R, Q}: T stands on the shard square; every square it could step to first
+/// (knight jumps; adjacent squares on its lines) - or, second variant, all eight neighbours - is
+/// occupied by own bishops (own knights when T is a bishop or queen... any own man that is not of
+/// kind T), the own king replaces one of those blockers or stands far away; a second own T stands
+/// on any free square; the enemy king on the first admissible far square. Both colours.
+pub fn boxed(shard: usize, f: Sink) {
+    let s = shard;
+    let (sf, sr) = (file_of(s), rank_of(s));
+    for stm in 0..2u8 {
+        let own = stm;
+        let opp = 1 - stm;
+        for &t in &[N, B, R, Q] {
+            let first_steps: Vec<usize> = match t {
+                N => KN.iter().filter(|(a, b)| on(sf + a, sr + b)).map(|(a, b)| sq(sf + a, sr + b)).collect(),
+                B => DIAG.iter().filter(|(a, b)| on(sf + a, sr + b)).map(|(a, b)| sq(sf + a, sr + b)).collect(),
+                R => ORTH.iter().filter(|(a, b)| on(sf + a, sr + b)).map(|(a, b)| sq(sf + a, sr + b)).collect(),
+                _ => KG.iter().filter(|(a, b)| on(sf + a, sr + b)).map(|(a, b)| sq(sf + a, sr + b)).collect(),
+            };
+            let all_nb: Vec<usize> = KG.iter().filter(|(a, b)| on(sf + a, sr + b)).map(|(a, b)| sq(sf + a, sr + b)).collect();
+            let variants: Vec<Vec<usize>> = if t == N || t == Q { vec![first_steps.clone()] } else { vec![first_steps.clone(), all_nb.clone()] };
+            // blockers must not be of kind T and must not be pawns on back ranks: knights, or
+            // bishops when T is a knight
+            let blocker = if t == N { B } else { N };
+            for fill in &variants {
+                let mut base = Pos::empty();
+                base.stm = stm;
+                base.b[s] = mk(own, t);
+                for &x in fill {
+                    base.b[x] = mk(own, blocker);
+                }
+                // own king: on each blocker square in turn, or far away
+                let mut king_sqs: Vec<usize> = fill.clone();
+                if let Some(far) = [63usize, 0, 56, 7, 36, 27].iter().cloned().find(|&c| base.b[c] == EMPTY && c != s) {
+                    king_sqs.push(far);
+                }
+                for &ks in &king_sqs {
+                    let mut p = base;
+                    p.b[ks] = mk(own, K);
+                    let ek = [7usize, 56, 0, 63, 27, 36, 20, 43].iter().cloned().find(|&c| p.b[c] == EMPTY && ((file_of(c) - file_of(ks)).abs() > 1 || (rank_of(c) - rank_of(ks)).abs() > 1));
+                    let Some(ek) = ek else { continue };
+                    p.b[ek] = mk(opp, K);
+                    emit_if_valid(&p, f);
+                    for x in 0..64 {
+                        if p.b[x] != EMPTY {
+                            continue;
+                        }
+                        let mut q = p;
+                        q.b[x] = mk(own, t);
+                        emit_if_valid(&q, f);
+                    }
+                }
+            }
+        }
+    }
+}
+
+// ---------------------------------------------------------------------------------------------
+// DENSE: boards whose ranks are dense patterns (long FEN board fields, many men)
+
+pub const DENSE_SHARDS: usize = 36;
+
+/// Every rank is one of six patterns (empty, full, the two alternations, two sparse ones); men
+/// are white on ranks 1-4 and black on ranks 5-8, kings on a1 / a8. 6^8 boards x 2 sides as RAW
+/// boards; `f_raw` sees all of them, `f` the valid ones (at most 16 men a side, nobody in check
+/// wrongly).
+pub fn dense(shard: usize, f_raw: &mut dyn FnMut(&RawPos), f: Sink) {
+    let pats: [[bool; 8]; 6] = [
+        [false; 8],
+        [true; 8],
+        [true, false, true, false, true, false, true, false],
+        [false, true, false, true, false, true, false, true],
+        [false, false, true, false, false, true, false, false],
+        [true, false, false, false, false, false, false, true],
+    ];
+    let kinds = [N, B, R, Q, N, B, R, Q];
+    for rest in 0..6usize.pow(6) {
+        let mut code = shard + 36 * rest;
+        let mut b = [EMPTY; 64];
+        for rank in 0..8 {
+            let pat = pats[code % 6];
+            code /= 6;
+            let col = if rank < 4 { 0 } else { 1 };
+            for fl in 0..8 {
+                if pat[fl] {
+                    b[sq(fl as i32, rank)] = mk(col, kinds[(rank as usize + fl) % 8]);
+                }
+            }
+        }
+        b[sq(0, 0)] = K;
+        b[sq(0, 7)] = K | BLACK;
+        for stm in 0..2u8 {
+            let r = RawPos { b, stm, cr: [false; 4], eps: None, hmc: 12, fmn: 34 };
+            f_raw(&r);
+            if let Ok(p) = r.validate() {
+                f(&p);
             }
         }
     }
